@@ -178,6 +178,28 @@ def handleImp (i o : Json) : Except String Verdict := do
         return .mismatch "imp-cycle" s!"model: {n} refused imports, go: {cyc} cyclic-import errors ({oc}) on {g}"
       return .ok
 
+def handleSubst (i o : Json) : Except String Verdict := do
+  match ← outcomeProblem o with
+  | some (sig, d) => return .specfalse sig d
+  | none =>
+    let shape ← match ← getStr i "shape" with
+      | "scalar" => pure VShape.scalar | "null" => pure .null | "novalue" => pure .noValue
+      | "map" => pure .map | "array" => pure .array | "missing" => pure .missing | x => throw s!"shape {x}"
+    let form ← match ← getStr i "form" with
+      | "unqWhole" => pure SForm.unqWhole | "unqPart" => pure .unqPart | "dqWhole" => pure .dqWhole
+      | "dqPart" => pure .dqPart | "sq" => pure .sq | "md" => pure .md | x => throw s!"form {x}"
+    let node ← match ← getStr i "ctx" with
+      | "label" | "tooltip" => pure SNode.field | "edgeLabel" => pure .edge | "arrayElem" => pure .arrayElem
+      | x => throw s!"ctx {x}"
+    let oc ← getStr o "outcome"
+    match resolveSubst node form shape with
+    | .error _ => return .mismatch "subst-model-crash" "model crashed (impossible by resolveSubst_total)"
+    | .ok r =>
+      let want := if r == .substituted then "graph" else "errors"
+      if oc != want then
+        return .mismatch "subst" s!"model: {want}, go: {oc} ({(getStr o "first").toOption.getD ""}) on {i}"
+      return .ok
+
 def handleC07 (j : Json) : Except String Verdict := do
   let k ← getStr j "k"
   let i ← getObj j "in"
@@ -188,6 +210,7 @@ def handleC07 (j : Json) : Except String Verdict := do
   | "arr" => handleArr i o
   | "theme" => handleTheme i o
   | "imp" => handleImp i o
+  | "subst" => handleSubst i o
   | "edgekw" =>
     match ← outcomeProblem o with
     | some (sig, d) => return .specfalse sig d
